@@ -67,6 +67,13 @@ def mutants_for(prop):
         meta = json.load(open(mp))
         if prop in meta.get("caught_by", []) or meta.get("property") == prop:
             out.append((os.path.join(d, "patch.diff"), meta))
+    # mutants of refactored trees (a stored refactoring with a break on top)
+    for d in sorted(glob.glob(os.path.join(VERIF, "selftest", "stacked", "*"))):
+        mp = os.path.join(d, "meta.json")
+        if os.path.exists(mp):
+            meta = json.load(open(mp))
+            if meta.get("property") == prop:
+                out.append(([os.path.join(VERIF, "refactors", meta["base"], "patch.diff"), os.path.join(d, "patch.diff")], meta))
     reg = os.path.join(VERIF, "selftest", "regress", "index.json")
     if os.path.exists(reg):
         for ent in json.load(open(reg)):
@@ -79,9 +86,12 @@ def run_mutant(prop, patch, meta):
     d = tempfile.mkdtemp(prefix="thv-mut.", dir="/tmp")
     try:
         subprocess.run(["rsync", "-a", "--exclude", "target", "--exclude", ".git", engine.REPO + "/", d + "/"], check=True)
-        r = subprocess.run(["patch", "-p1", "-s", "--no-backup-if-mismatch", "-i", patch], cwd=d, stdout=subprocess.PIPE, stderr=subprocess.STDOUT, text=True)
-        if r.returncode != 0:
-            return {"patch": os.path.relpath(patch, VERIF), "status": "stale (does not apply to the current tree)"}
+        patches = patch if isinstance(patch, list) else [patch]
+        patch = patches[-1]
+        for one in patches:
+            r = subprocess.run(["patch", "-p1", "-s", "--no-backup-if-mismatch", "-i", one], cwd=d, stdout=subprocess.PIPE, stderr=subprocess.STDOUT, text=True)
+            if r.returncode != 0:
+                return {"patch": os.path.relpath(patch, VERIF), "status": "stale (does not apply to the current tree)"}
         r = subprocess.run([os.path.join(VERIF, "check"), prop, "--repo", d, "--tier", "quick"], cwd=VERIF, stdout=subprocess.PIPE, stderr=subprocess.STDOUT, text=True,
                            env=dict(os.environ, VERIF_TIER="quick"))
         fired = [l.split(" @ ")[0][len("violated: "):] for l in r.stdout.splitlines() if l.startswith("violated: ")]
